@@ -313,3 +313,79 @@ QUERIES = [
     {"name": "Q1d", "fn": q1d, "shards": [{}], "timeout": 120,
      "bound": "1 input, 1 output, two should_run calls on one CachedFilesystem, os.stat answering differently from the 2nd call on"},
 ]
+
+
+# ---------------------------------------------------------------- Q1e  "script unchanged since it was last submitted or touched" over a history
+from vf.world import abst
+from vf.world.proj import Project
+
+
+def _q1e(edit_a, edit_b, fail_a, use_touch, mtime_gap):
+    """Spec hashing on.  run (A, B accepted); A's job succeeds or fails (B's is then cancelled); the specs of A
+    and/or B are edited; then either `gwf run` + successful jobs or `gwf touch`.  Afterwards every target was
+    submitted/touched with its current script, its outputs are newer than its inputs (symbolic gap >= 0), so
+    status must show completed and a further run must submit nothing."""
+    if not (mtime_gap >= 0):
+        return q.SKIP
+    edit_a, edit_b, fail_a, use_touch = [True if x else False for x in (edit_a, edit_b, fail_a, use_touch)]
+    if fail_a and use_touch:
+        return q.SKIP        # the backend still holds a failed job for A: the statement's precondition does not hold
+    with q.notrace():
+        pr = Project("chain2", "slurm", hashing=True)
+        pr.add_sources(5)
+        w = pr.w
+        w.vfs.clock = 100
+        w.install()
+    try:
+        w.concretely(w.run)
+        jobs = abst.jobs_by_cmd(w)
+        t = 100
+        for j in jobs:
+            if fail_a:
+                abst.set_state(w, j["id"], "failed" if j["name"] == "A" else "cancelled")
+            else:
+                t = t + 10
+                w.vfs.add("/vfs/proj/" + pr.outputs[pr.idx(j["name"])][0], t, "made by first run")
+                abst.set_state(w, j["id"], "done")
+        if edit_a:
+            pr.targets["A"].spec = "make A --with-new-flag"
+        if edit_b:
+            pr.targets["B"].spec = "make B --with-new-flag"
+        n0 = len(jobs)
+        if use_touch:
+            w.vfs.clock = 200
+            w.touch(())
+        else:
+            w.run()
+            t = 200
+            for j in abst.jobs_by_cmd(w)[n0:]:
+                t = t + mtime_gap
+                w.file(pr.outputs[pr.idx(j["name"])][0], t, "made by second run")
+                abst.set_state(w, j["id"], "done")
+            # finished jobs are eventually forgotten by the scheduler: the file-based decision applies
+        table = w.status_table()
+        want = {"A": "completed", "B": "completed"}
+        if table != want:
+            return "edited A:%s B:%s, first job of A %s, then %s: status shows %s although every script is unchanged since it was last %s" % (
+                edit_a, edit_b, "failed" if fail_a else "succeeded", "touch" if use_touch else "run + successful jobs", table, "touched" if use_touch else "submitted")
+        n1 = len(abst.jobs_by_cmd(w))
+        w.run()
+        again = [j["name"] for j in abst.jobs_by_cmd(w)[n1:]]
+        if again:
+            return "a further run submits %s" % again
+        return ""
+    finally:
+        w.uninstall()
+
+
+def q1e(edit_a: bool, edit_b: bool, fail_a: bool, use_touch: bool, mtime_gap: int) -> str:
+    """
+    post: _ == ""
+    """
+    return q.run(_q1e, (edit_a, edit_b, fail_a, use_touch, mtime_gap))
+
+
+QUERIES.append(
+    {"name": "Q1e", "fn": q1e, "shards": [{}], "timeout": {"quick": 600, "thorough": 900},
+     "bound": "chain of 2 on the Slurm simulator with spec hashing on: run; first job of A succeeds or fails; spec of A and/or B edited or not; then run + successful jobs (outputs dated with a symbolic gap >= 0) or touch; then status and run"})
+META["real"] = META["real"] + ["gwf.plugins.run.run / touch.touch / status.status (bodies)", "gwf.core.FileSpecHashes.__init__/close (persistence)", "gwf.backends.slurm + TrackingBackend"]
